@@ -10,7 +10,7 @@ Definition model_of (c : icase) : option ty := infer (ik c) (ivs c).
 (* 3 = the case violates the theorem's premise (harness bug, never the code's fault) *)
 Definition verdict_c04 (h : hierarchy) (c : icase) : nat :=
   if negb (forallb wf_valueb (ivs c)) then 3 else
-  if negb (forallb (fun v => member (subclass h) v (iimpl c)) (ivs c)) then 2
+  if negb (forallb (fun v => member false (subclass h) v (iimpl c)) (ivs c)) then 2
   else match model_of c with
        | Some t => if corrb t (iimpl c) then 0 else 1
        | None => 1
